@@ -133,7 +133,7 @@ pub fn write_jsonl_par<T: Serialize + Send + Sync>(
         .par_iter()
         .enumerate()
         .try_for_each(|(i, p)| -> Result<()> {
-            let start = i * chunk;
+            let start = (i * chunk).min(n);
             let end = ((i + 1) * chunk).min(n);
             let f = File::create(p).with_context(|| format!("create {}", p.display()))?;
             let mut w = BufWriter::new(f);
